@@ -144,6 +144,8 @@ class VcfWriter:
         if individuals is None:
             # Find all sample nodes that reference individuals
             individuals = np.unique(ts.nodes_individual[ts.samples()])
+            if len(individuals) == 0:
+                raise ValueError("Cannot write a VCF for a tree sequence with no samples")
             if len(individuals) == 1 and individuals[0] == tskit.NULL:
                 # No samples refer to individuals
                 individuals = None
